@@ -310,6 +310,8 @@ def do_slice(base, lo, hi, step):
 
 
 def do_index(base, k):
+    if isinstance(k, slice) and isinstance(base, (tuple, list, bytes, str, bytearray, range)):
+        return base[k]
     if isinstance(base, dict):
         if is_concrete(k):
             try:
@@ -609,6 +611,10 @@ def _integer_method(interp, v, attr, args, kwargs, st, node):
 
 def m_len(i, args, kw, st, node):
     v = args[0] if args else UNK
+    if isinstance(v, AObj) and v.cnode is not None:
+        ln = i.repo.find_method(v.mod, v.cnode, "__len__")
+        if ln is not None:
+            return i.call_func(AFunc(ln[0], ln[1], self_obj=v, cls=v.cnode), [], {}, st, node)
     if isinstance(v, (bytes, str, tuple, list, dict, bytearray, range, frozenset, set)):
         return len(v)
     if isinstance(v, ABytes):
@@ -840,6 +846,16 @@ def m_chr(i, args, kw, st, node):
 
 
 def m_getattr(i, args, kw, st, node):
+    if len(args) >= 2 and isinstance(args[1], str) and isinstance(args[0], AObj) \
+            and args[0].cnode is not None and args[0].ident not in st.havoc:
+        o = args[0]
+        if args[1] not in st.heap.get(o.ident, {}) and \
+                i.class_attr(o.mod, o.cnode, args[1], st, None) is None and \
+                i.repo.find_method(o.mod, o.cnode, "__getattr__") is None:
+            if len(args) == 3:
+                return args[2]
+            i._diverged = i.do_raise("AttributeError", st, node)
+            return UNK
     if len(args) >= 2 and isinstance(args[1], str):
         v = i.getattr(args[0], args[1], st, node)
         if isinstance(v, BoundMethod):
@@ -1061,6 +1077,8 @@ def r_bchr(i, args, kw, st, node):
 
 
 def r_is_bytes(i, args, kw, st, node):
+    if args and isinstance(args[0], (AObj, AClass, AFunc, AMod)):
+        return False
     tn = type_name(args[0]) if args else None
     if tn in ("bytes", "bytearray"):
         return True
@@ -1070,6 +1088,8 @@ def r_is_bytes(i, args, kw, st, node):
 
 
 def r_is_string(i, args, kw, st, node):
+    if args and isinstance(args[0], (AObj, AClass, AFunc, AMod)):
+        return False
     tn = type_name(args[0]) if args else None
     if tn == "str":
         return True
@@ -1079,6 +1099,8 @@ def r_is_string(i, args, kw, st, node):
 
 
 def r_is_native_int(i, args, kw, st, node):
+    if args and isinstance(args[0], (AObj, AClass, AFunc, AMod)):
+        return False
     tn = type_name(args[0]) if args else None
     if tn in ("int", "bool"):
         return True
@@ -1088,6 +1110,8 @@ def r_is_native_int(i, args, kw, st, node):
 
 
 def r_byte_string(i, args, kw, st, node):
+    if args and isinstance(args[0], (AObj, AClass, AFunc, AMod)):
+        return False
     tn = type_name(args[0]) if args else None
     if tn == "bytes":
         return True
@@ -1112,6 +1136,8 @@ def r_copy_bytes(i, args, kw, st, node):
 
 
 def r_is_buffer(i, args, kw, st, node):
+    if args and isinstance(args[0], (AObj, AClass, AFunc, AMod)):
+        return False
     tn = type_name(args[0]) if args else None
     if tn in ("bytes", "bytearray", "memoryview"):
         return True
@@ -1121,6 +1147,8 @@ def r_is_buffer(i, args, kw, st, node):
 
 
 def r_is_writeable(i, args, kw, st, node):
+    if args and isinstance(args[0], (AObj, AClass, AFunc, AMod)):
+        return False
     tn = type_name(args[0]) if args else None
     if tn == "bytearray":
         return True
